@@ -25,8 +25,9 @@ from hypothesis import strategies as st
 
 from ..harness import Leg, Violation, check, impl
 
-DT = {"float32": torch.float32, "float64": torch.float64}
+DT = {"float32": torch.float32, "float64": torch.float64, "int64": torch.int64, "int32": torch.int32}
 NPDT = {"float32": np.float32, "float64": np.float64}
+INT_DTYPES = ("int64", "int32")
 
 # ------------------------------------------------------------------------------- probe classes
 
@@ -318,7 +319,11 @@ def run_lifecycle(case):
 
 # ------------------------------------------------------------------------------- postcond leg
 
-TARGETS = ["box", "box_nested", "dense_weight", "dense_bias", "updater_weight"]
+TARGETS = ["box", "box_nested", "dense_weight", "dense_bias", "updater_weight", "box_deep3", "box_deep4"]
+# dotted attribute paths of the plain-module targets (1 to 4 components)
+BOXPATH = {"box": "w", "box_nested": "inner.w", "box_deep3": "inner.cell.w", "box_deep4": "a.b.c.w"}
+IVALS = [-250, -5, -3, -2, -1, 0, 1, 2, 3, 4, 7, 100]
+LIMS_INT = [-2.5, -1.5, -0.5, 0.5, 1.5, 3.5, -1, 0, 2, 2.0]
 VALS = [0.0, -0.0, 0.5, -0.5, 1.0, -1.0, 2.0, -2.0, 3.0, 0.001, -0.001, 0.3, -0.7, 100.0, -250.0, 1000.0]
 CLAMP_EXTRA = [1e30, -1e30, 1e-30]
 LIMS = [-1.0, -0.5, 0.0, 0.25, 0.5, 1.0, 2.0, 0.3, -0.7, 0, 1]
@@ -352,8 +357,16 @@ class Post:
         with impl("construct target"):
             if self.target.startswith("box"):
                 self.shape = tuple(case["shape"])
+                from inferno import Module as _PlainModule
+
                 self.owner = Box(self.log, 0)
-                self.attr = "w" if self.target == "box" else "inner.w"
+                self.attr = BOXPATH[self.target]
+                # chain of plain modules along the dotted path (``inner`` exists on every Box)
+                self.chain = [self.owner]
+                for part in self.attr.split(".")[:-1]:
+                    if not hasattr(self.chain[-1], part):
+                        setattr(self.chain[-1], part, _PlainModule())
+                    self.chain.append(getattr(self.chain[-1], part))
                 self.owner.watch = self.attr
                 self.hooked = self.owner
                 self.fire = lambda: self.owner(torch.zeros(2))
@@ -370,8 +383,11 @@ class Post:
                 else:
                     self.shape, self.attr, self.hooked = (o, i), "parent.weight", self.owner.updater
                     self.fire = lambda: self.owner.update()
+        if not self.target.startswith("box"):
+            self.chain = None
         self.base = _nhandles(self.hooked)
         self.set_values(case["init"])
+        self.names0 = self.attr_names()
         self.kind = hk["kind"]
         flags = dict(train_update=bool(hk["tu"]), eval_update=bool(hk["eu"]), as_prehook=bool(hk["pre"]),
                      prepend=bool(hk["prepend"]), always_call=bool(hk["always"]))
@@ -399,20 +415,32 @@ class Post:
 
     # -- attribute access (test side)
     def get(self):
-        if self.target == "box":
-            return self.owner.w
-        if self.target == "box_nested":
-            return self.owner.inner.w
+        if self.chain is not None:
+            return getattr(self.chain[-1], "w")
         return getattr(self.owner, self.attr.split(".")[-1])
+
+    def attr_names(self):
+        """Attribute names (plain, parameters, buffers, submodules) of every object on the dotted path."""
+        if self.chain is None:
+            return None
+        return [frozenset(vars(o)) | frozenset(o._parameters) | frozenset(o._buffers) | frozenset(o._modules)
+                for o in self.chain]
+
+    def check_no_stray(self, what):
+        if self.chain is None:
+            return
+        now = self.attr_names()
+        for depth, (a, b) in enumerate(zip(self.names0, now)):
+            check(a == b, "path:stray",
+                  lambda: f"{what}: attribute set of the object at depth {depth} of '{self.attr}' changed: "
+                          f"new {sorted(b - a)}, lost {sorted(a - b)}")
 
     def set_values(self, pool):
         n = int(np.prod(self.shape))
         arr = np.array([pool[j % len(pool)] for j in range(n)], dtype=np.float64).reshape(self.shape)
         t = torch.tensor(arr, dtype=torch.float64).to(DT[self.dtype])
-        if self.target == "box":
-            self.owner.w = t
-        elif self.target == "box_nested":
-            self.owner.inner.w = t
+        if self.chain is not None:
+            self.chain[-1].w = t
         else:
             setattr(self.owner, self.attr.split(".")[-1], t)
 
@@ -423,7 +451,8 @@ class Post:
     def satisfied(self, arr):
         """(ok, detail) of the documented post-condition on attribute values ``arr`` (float64 copy)."""
         if self.kind == "clamp":
-            npdt = NPDT[self.dtype]
+            # integer attributes: a non-integral bound promotes the result to float32
+            npdt = NPDT.get(self.dtype, np.float32)
             ok = np.ones(arr.shape, dtype=bool)
             if self.cmin is not None:
                 ok &= (arr >= self.cmin) | (arr >= float(npdt(self.cmin)))
@@ -455,7 +484,8 @@ class Post:
                 self.stats["suppressed_decisive"] += 1
             return
         check(after.shape == before.shape, "post:shape", lambda: f"{what}: shape {before.shape} -> {after.shape}")
-        check(self.get().dtype == DT[self.dtype], "post:dtype", lambda: f"{what}: dtype became {self.get().dtype}")
+        if self.dtype not in INT_DTYPES:  # integer attributes may be promoted by non-integral bounds
+            check(self.get().dtype == DT[self.dtype], "post:dtype", lambda: f"{what}: dtype became {self.get().dtype}")
         if self.kind == "clamp":
             ok, detail = self.satisfied(after)
             check(ok, "clamp:range", lambda: f"{what}: after the clamping hook ran, {detail} (before {before.tolist()})")
@@ -513,6 +543,7 @@ def run_postcond(case):
             with impl(what):
                 d.fire()
             d.judge(before, fires, what)
+            d.check_no_stray(what)
             if fires and d.target.startswith("box") and not d._sat_pre:
                 seen = d.np(d.owner.seen)
                 if d.m["pre"]:
@@ -532,6 +563,7 @@ def run_postcond(case):
             with impl(what):
                 d.hook(force=force, ignore_mode=ignore)
             d.judge(before, fires, what, manual=True)
+            d.check_no_stray(what)
             d.stats["manual"] += 1
         elif name == "mode":
             with impl(what):
@@ -570,7 +602,7 @@ def run_postcond(case):
             raise ValueError(name)
         d.check_handles(what)
     s = d.stats
-    cls = [f"target={d.target}", f"kind={d.kind}", f"dtype={d.dtype}"]
+    cls = [f"target={d.target}", f"kind={d.kind}", f"dtype={d.dtype}", f"path-depth={len(d.attr.split('.'))}"]
     if d.kind == "norm":
         cls += [f"order={d.order}", f"dims={d.dims}", "scale<0" if d.scale < 0 else "scale>0"]
     else:
@@ -625,12 +657,19 @@ def postcond_case(draw, tier="quick"):
         shape = draw(st.sampled_from([[2, 3], [3, 2], [1, 3], [2, 1]]))
     nd = len(shape)
     kind = draw(st.sampled_from(["clamp", "norm", "norm"]))
+    dtype = draw(st.sampled_from(["float32", "float32", "float64"]))
+    if kind == "clamp" and tname.startswith("box") and draw(_b):
+        dtype = draw(st.sampled_from(list(INT_DTYPES)))  # integer-typed attribute, mostly non-integral bounds
     flags = {"tu": draw(_bt), "eu": draw(_bt), "pre": draw(_b), "prepend": draw(_b), "always": draw(_b)}
     if kind == "clamp":
         which = draw(st.sampled_from([0, 0, 1, 2]))
-        lo, hi = sorted(draw(st.lists(st.sampled_from(LIMS), min_size=2, max_size=2, unique_by=float)), key=float)
+        lims = LIMS_INT if dtype in INT_DTYPES else LIMS
+        lo, hi = sorted(draw(st.lists(st.sampled_from(lims), min_size=2, max_size=2, unique_by=float)), key=float)
         hook = {"kind": "clamp", "min": None if which == 1 else lo, "max": None if which == 2 else hi, **flags}
-        vals = st.sampled_from(VALS + CLAMP_EXTRA + [float(lo), float(hi)])
+        if dtype in INT_DTYPES:
+            vals = st.sampled_from(IVALS + [int(np.floor(lo)), int(np.ceil(lo)), int(np.floor(hi)), int(np.ceil(hi))])
+        else:
+            vals = st.sampled_from(VALS + CLAMP_EXTRA + [float(lo), float(hi)])
     else:
         dims = draw(st.one_of(
             st.none(), st.sampled_from([0, -1, nd - 1, -nd]),
@@ -663,7 +702,7 @@ def postcond_case(draw, tier="quick"):
         ops += [["collect"], ["set", draw(pool)], ["call"]]
     if draw(st.integers(0, 3)) > 0:
         ops = [["register"]] + ops
-    return {"target": target, "dtype": draw(st.sampled_from(["float32", "float32", "float64"])), "shape": shape,
+    return {"target": target, "dtype": dtype, "shape": shape,
             "init": draw(pool), "hook": hook, "ops": ops}
 
 
@@ -689,6 +728,10 @@ ASSUMPTIONS = [
     "relative order of several hooks on one module (prepend) and behaviour when forward raises (always_call) are "
     "torch semantics and not asserted; the flags are generated so that they cannot break the firing predicate",
     "double register: RuntimeError (Hook) or silent no-op (StateHook.register) are both accepted, state must not change",
+    "Clamping is also run on int64 / int32 attributes with non-integral bounds (the unchanged tree promotes the "
+    "result to float32; only min <= attr <= max on the stored value is asserted); Normalization only on floating attributes",
+    "dotted attribute paths of 1-4 components on plain modules: after every firing the attribute-name sets of all objects "
+    "on the path must be unchanged (no stray attribute)",
     "normalisation: elements are 0 or of magnitude in [1e-3, 1e3] (no vector with 0 < norm < 1e-3: epsilon regime), "
     "default epsilon; rtol 1e-5 (float32) / 1e-9 (float64); clamping limits compared as rounded to the working dtype",
 ]
